@@ -66,7 +66,9 @@ Report(ln, viol) == \A v \in viol : PrintT(<<"MONFAIL", ln.tr, ln.i, v>>)
 
 SanityInit(ln) == { <<"X", "preparation-failed">> : x \in IF ln.prep = "" THEN {} ELSE {1} }
 
-TraceInit == l = 1 /\ S = StateOf(Trace[1].st) /\ dig = DigOf(Trace[1].st) /\ Report(Trace[1], SanityInit(Trace[1]))
+OneLine == Len(Trace) = 1 => PrintT(<<"CONSUMED", 1>>)
+
+TraceInit == l = 1 /\ S = StateOf(Trace[1].st) /\ dig = DigOf(Trace[1].st) /\ Report(Trace[1], SanityInit(Trace[1])) /\ OneLine
 
 TraceNext ==
     /\ l < Len(Trace)
